@@ -10,6 +10,7 @@ import (
 	"os"
 	"strings"
 	"sync"
+	"syscall"
 	"testing"
 	"testing/synctest"
 
@@ -59,9 +60,14 @@ type C18Sc struct {
 	// through the file system when the console is inspected
 	FileConsole bool `json:"file_console,omitempty"`
 	// Defaults: the host calls neither SetStdout nor SetWarnLogger (as cmd/zexdoc does): the machine is
-	// created while os.Stdout / os.Stderr are scratch files, which stay in place until the run is over
-	Defaults bool      `json:"defaults,omitempty"`
-	Second   []C18Item `json:"second,omitempty"`
+	// created and run while the process's descriptors 1 and 2 are pointed at scratch files
+	Defaults bool `json:"defaults,omitempty"`
+	// ForkAtBP: whenever Run has returned, the host carries on with a by-value copy of the CPU struct
+	ForkAtBP bool `json:"fork_at_bp,omitempty"`
+	// FuncWriter: the writers given to SetStdout are values of a func type with a Write method (an adapter,
+	// like http.HandlerFunc): legal io.Writers that cannot be compared with ==
+	FuncWriter bool      `json:"func_writer,omitempty"`
+	Second     []C18Item `json:"second,omitempty"`
 	// Concurrent: several independent machines (each its own Memory, IO, CPU, console) run at the same
 	// time on their own goroutines (side-car: free threads; also in the -race binary).
 	Concurrent []C18Sc `json:"concurrent,omitempty"`
@@ -234,6 +240,8 @@ func c18GenOne(r *world.Rng, tier string, n int) *C18Sc {
 	if len(sc.WriteFail) == 0 && !sc.ByteWriter && r.Chance(1, 12) {
 		sc.FileConsole = true
 	}
+	sc.ForkAtBP = r.Chance(1, 4)
+	sc.FuncWriter = !sc.ByteWriter && !sc.FileConsole && r.Chance(1, 5)
 	if len(sc.WriteFail) == 0 && !sc.ByteWriter && !sc.FileConsole && sc.PreWriter == "" && len(sc.CancelAt) == 0 && r.Chance(1, 10) {
 		sc.Defaults = true
 	}
@@ -269,6 +277,11 @@ type faultWriter struct {
 }
 
 var errConsole = errors.New("simulated console failure")
+
+// funcWriter adapts a function to io.Writer.
+type funcWriter func(p []byte) (int, error)
+
+func (f funcWriter) Write(p []byte) (int, error) { return f(p) }
 
 // byteFaultWriter additionally offers WriteByte (io.ByteWriter) with the same accounting.
 type byteFaultWriter struct{ *faultWriter }
@@ -413,12 +426,29 @@ func c18Run(sc *C18Sc, env *Env, bubble bool) (res *Violation) {
 		if err1 != nil || err2 != nil {
 			return viol("harness", "cannot create the stand-ins for the standard streams: %v %v", err1, err2)
 		}
-		oldO, oldE := os.Stdout, os.Stderr
-		os.Stdout, os.Stderr = fo, fe
+		// the process's standard streams themselves (descriptors 1 and 2) are pointed at the scratch files
+		// for the duration of the run, whichever Go value the library reaches them through (os.Stdout as it
+		// is now, or a writer / logger it made from it when the package was initialised)
+		save1, e1 := syscall.Dup(1)
+		save2, e2 := syscall.Dup(2)
+		if e1 != nil || e2 != nil {
+			return viol("harness", "cannot save the standard streams: %v %v", e1, e2)
+		}
+		os.Stdout.Sync()
+		if e := syscall.Dup3(int(fo.Fd()), 1, 0); e != nil {
+			return viol("harness", "cannot redirect stdout: %v", e)
+		}
+		if e := syscall.Dup3(int(fe.Fd()), 2, 0); e != nil {
+			syscall.Dup3(save1, 1, 0)
+			return viol("harness", "cannot redirect stderr: %v", e)
+		}
 		confile, errfile = fo, fe
 		env.Fire("machine-with-default-console-and-logger")
 		defer func() {
-			os.Stdout, os.Stderr = oldO, oldE
+			syscall.Dup3(save1, 1, 0)
+			syscall.Dup3(save2, 2, 0)
+			syscall.Close(save1)
+			syscall.Close(save2)
 			fo.Close()
 			fe.Close()
 			os.Remove(fo.Name())
@@ -426,6 +456,16 @@ func c18Run(sc *C18Sc, env *Env, bubble bool) (res *Violation) {
 		}()
 	}
 	mem, io := tinycpm.New()
+	// the stack top of a CP/M program is the word at 0006h (the BDOS entry): scenarios place their stack
+	// relative to 0xFE06, where the bundled image has it; if the image under test has it elsewhere the
+	// stack moves with it (not in tight-stack scenarios, whose stack is placed relative to the program)
+	top := uint16(mem.Get(6)) | uint16(mem.Get(7))<<8
+	if shift := uint16(0xfe06) - top; shift != 0 && sc.SP >= 0x8000 && sc.TightStack == "" {
+		c := *sc
+		c.SP -= shift
+		c.Regs.SP -= shift
+		sc = &c
+	}
 	for i, b := range prog {
 		mem.Set(tinycpm.Start+uint16(i), b)
 	}
@@ -449,10 +489,12 @@ func c18Run(sc *C18Sc, env *Env, bubble bool) (res *Violation) {
 	var warnBuf bytes.Buffer
 	var pre bytes.Buffer
 	var prePlain faultWriter
-	switch sc.PreWriter {
-	case "buffer":
+	switch {
+	case sc.PreWriter != "" && sc.FuncWriter:
+		io.SetStdout(funcWriter(pre.Write))
+	case sc.PreWriter == "buffer":
 		io.SetStdout(&pre)
-	case "plain":
+	case sc.PreWriter == "plain":
 		io.SetStdout(&prePlain)
 	}
 	if sc.Defaults {
@@ -471,6 +513,9 @@ func c18Run(sc *C18Sc, env *Env, bubble bool) (res *Violation) {
 		io.SetStdout(f)
 	} else if sc.ByteWriter {
 		io.SetStdout(&byteFaultWriter{fw})
+	} else if sc.FuncWriter {
+		io.SetStdout(funcWriter(fw.Write))
+		env.Fire("console-is-a-func-adapter")
 	} else {
 		io.SetStdout(fw)
 	}
@@ -549,6 +594,11 @@ func c18Run(sc *C18Sc, env *Env, bubble bool) (res *Violation) {
 	for runs := 0; ; runs++ {
 		if runs > len(rets)+len(sc.CancelAt)+8 {
 			return viol("end-state", "machine did not finish after %d Run calls (PC=%04x)", runs, cpu.PC)
+		}
+		if runs > 0 && sc.ForkAtBP {
+			c2 := *cpu // the host carries on with a copy of the CPU value
+			cpu = &c2
+			env.Fire("host-continues-on-a-copy-of-the-cpu")
 		}
 		ctx, c := context.WithCancel(context.Background())
 		cancel = c
@@ -748,14 +798,21 @@ func c18Run(sc *C18Sc, env *Env, bubble bool) (res *Violation) {
 	}
 	// nothing else of the machine's memory either: only the stack slot of the CALL (plus the frames of
 	// the interrupt handlers, when requests were raised) may differ from the image the run started with
+	// The caller's memory is the transient program area [0100h, word at 0006h); page 0 and everything from
+	// the BDOS entry up are the system's own (it may keep variables there). Below SP the stack is free for
+	// whoever is running - 64 bytes of it are left out, in tight-stack scenarios only the CALL's slot (there
+	// the caller's code or string starts right below it).
 	if len(sc.Second) == 0 {
 		frame := uint16(2)
 		if len(sc.Events) > 0 {
 			frame = 2 + 6*uint16(len(sc.Events)+1)
 		}
-		for a := 0; a < 65536; a++ {
+		if sc.TightStack == "" && frame < 64 {
+			frame = 64
+		}
+		for a := int(tinycpm.Start); a < int(top); a++ {
 			if mem.Get(uint16(a)) != imgBefore[a] && sc.SP-uint16(a)-1 >= frame {
-				return viol("returns-to-caller", "memory[%04x] changed from %02x to %02x although neither the program nor its stack slot [%04x,%04x) lives there", a, imgBefore[a], mem.Get(uint16(a)), sc.SP-frame, sc.SP)
+				return viol("returns-to-caller", "memory[%04x] changed from %02x to %02x: it belongs to the caller's program area [0100,%04x) and not to the stack window [%04x,%04x)", a, imgBefore[a], mem.Get(uint16(a)), top, sc.SP-frame, sc.SP)
 			}
 		}
 	}
